@@ -143,15 +143,23 @@ impl Number {
         if exp.value.abs() >= Numeric::from(1 << 31) {
             return Err("Exponent is too large".to_string());
         }
+        if let Numeric::Float(f) = exp.value {
+            if f.is_nan() {
+                return Err("Exponent is not a number".to_string());
+            }
+        }
         let (num, den) = exp.value.to_rational();
         let one = BigInt::one();
+        // A root whose degree does not fit in an i32 is handled like any
+        // other non-integer power below.
+        let small_root = num == one && den.as_int().map_or(false, |d| d <= i32::MAX as i64);
         if den == one {
             let exp: Option<i64> = num.as_int();
             if exp.unwrap() < 0 && self.value == Numeric::zero() {
                 return Err("Division by zero".to_string());
             }
             Ok(self.powi(exp.unwrap() as i32))
-        } else if num == one {
+        } else if small_root {
             let exp: Option<i64> = den.as_int();
             self.root(exp.unwrap() as i32)
         } else if !self.dimless() {
@@ -171,6 +179,11 @@ impl Number {
         }
         if exp.value.abs() >= Numeric::from(1 << 31) {
             return Err("Right-hand to << is too large".to_string());
+        }
+        if let Numeric::Float(f) = exp.value {
+            if f.is_nan() {
+                return Err("Right-hand to << must be an integer".to_string());
+            }
         }
         let (num, den) = exp.value.to_rational();
         if den != BigInt::one() {
@@ -195,6 +208,11 @@ impl Number {
         }
         if exp.value.abs() >= Numeric::from(1 << 31) {
             return Err("Right-hand to >> is too large".to_string());
+        }
+        if let Numeric::Float(f) = exp.value {
+            if f.is_nan() {
+                return Err("Right-hand to >> must be an integer".to_string());
+            }
         }
         let (num, den) = exp.value.to_rational();
         if den != BigInt::one() {
